@@ -1,6 +1,6 @@
 // ---- /verif/kani/aead.rs: appended to src/aead.rs in the Kani scratch copy (never part of /repo) ----
 #[cfg(kani)]
-mod verif_kani {
+pub(crate) mod verif_kani {
     // the crate is no_std: names needed by Kani's generated concrete-playback tests
     extern crate std as verif_std;
     #[allow(unused_imports)] use verif_std::{vec, vec::Vec};
@@ -91,6 +91,9 @@ mod verif_kani {
     // running the REAL function bodies against this recording AEAD is sound for every AEAD.
     #[derive(Clone)]
     pub struct ModelImpl;
+    pub(crate) fn model_reset(fail: bool) { unsafe { FAIL = fail; CALLS = 0; LAST_NONCE = [0; 12]; } }
+    pub(crate) fn model_calls() -> u32 { unsafe { CALLS } }
+    pub(crate) fn model_last_nonce() -> [u8; 12] { unsafe { LAST_NONCE } }
     static mut LAST_NONCE: [u8; 12] = [0; 12];
     static mut CALLS: u32 = 0;
     static mut FAIL: bool = false;
